@@ -51,6 +51,7 @@ type frame struct {
 }
 
 type Exec struct {
+	lastRangeBad   string // set by matcher: the range of the last ListRange/DeleteRange is rejected by the ORM
 	lastOrderField *TField
 	s      *Session
 	fn     *ssa.Function
